@@ -203,6 +203,13 @@ def gen_engine_scenario(rng):
     steps = []
     for i in range(n):
         steps.append({"op": "wait_dead"})
+        if rng.random() < 0.35:
+            # a second thread kills the engine WHILE restart() is executing (0-6 ms after it was entered); the engine
+            # must then end Killed without running a task to its own exit
+            steps.append({"op": "restart", "concurrent_kill": rng.choice([0.0, 0.0005, 0.001, 0.002, 0.004, 0.006])})
+            steps.append({"op": "wait_dead"})
+            steps.append({"op": "restart"})
+            continue
         steps.append({"op": "restart"})
         r = rng.random()
         if r < 0.45:
